@@ -6,6 +6,8 @@
 (*   "(" ")" "[" "]" "," ";"   delimiters        "Q"  the double quote     *)
 (*   "SP" "TAB" "NBSP" "IDSP" "CR"  Unicode spaces   "NL"  line feed       *)
 (*   "a".."z" "A".."Z" letters             "Eacute"  a non-ASCII letter    *)
+(*   "Agrave" "Aring" "Ni": non-ASCII letters whose UTF-8 encodings contain  *)
+(*   the bytes A0 / 85 (as code points: no-break space, next line)          *)
 (*   "0".."9" digits   "-" "+" signs   "." "_" "!"                         *)
 (*   "<" "=" ">" "&" "|" "*" "/" "%"  operator characters                  *)
 (*   "BS" backslash, "CTL" a control character, "U" any other rune         *)
@@ -21,7 +23,7 @@ Delims == {"(", ")", "[", "]", ";", ","}
 Letters == {"a", "b", "c", "d", "e", "f", "g", "h", "i", "j", "k", "l", "m", "n", "o", "p", "q", "r", "s", "t",
             "u", "v", "w", "x", "y", "z",
             "A", "B", "C", "D", "E", "F", "G", "H", "I", "J", "K", "L", "M", "N", "O", "P", "Q_", "R", "S", "T", "U_", "V", "W", "X", "Y", "Z",
-            "Eacute"}
+            "Eacute", "Agrave", "Aring", "Ni"}
 Digits == {"0", "1", "2", "3", "4", "5", "6", "7", "8", "9"}
 OpChars == {"<", "=", ">", "&", "|", "*", "/", "%", "!", "+", "-"}
 
